@@ -310,14 +310,17 @@ def callIs (hm : HM) (m : Nat) (n : Name) : Call :=
 def getTriggers (hm : HM) (names : List Name) : List Name :=
   hm.events.filterMap fun ev => if ev.2.any (fun t => names.contains t.source) then some ev.1 else none
 
+/-- the comprehension of `get_transitions`: `(t.source, t.dest) == (target_source or t.source, target_dest or t.dest)` -/
+def selMatch (src dst : Option Name) (t : Tr) : Bool :=
+  (match src with | some s => t.source == s | none => true) &&
+  (match dst with | some d => t.dest == some d | none => true)
+
 /-- `Machine.get_transitions(trigger, source, dest)`; `none` = the falsy defaults `""` / `"*"` -/
 def getTransitions (hm : HM) (trigger src dst : Option Name) : List (Name × Tr) :=
   let evs : List (Name × List Tr) := match trigger with
     | some e => (match kget e hm.events with | some ts => [(e, ts)] | none => [])     -- KeyError → []
     | none => hm.events
-  (evs.flatMap fun ev => ev.2.map fun t => (ev.1, t)).filter fun p =>
-    (match src with | some s => p.2.source == s | none => true) &&
-    (match dst with | some d => p.2.dest == some d | none => true)
+  (evs.flatMap fun ev => ev.2.map fun t => (ev.1, t)).filter fun p => selMatch src dst p.2
 
 /-! ### histories of events and reconfigurations -/
 
